@@ -187,6 +187,14 @@ impl<'a, 'c> SDriver<'a, 'c> {
             Ok(r) => r,
             Err(pm) => vfail!("panic", "stream::Parser::parse", "parse({k}, dest={dest_len:?}) panicked: {pm}"),
         };
+        {
+            // abstract state the public API exposes
+            let cls = |n: usize| -> u64 { if n == 0 { 0 } else if n < 8 { 1 } else if n < 64 { 2 } else { 3 } };
+            let h = fnv_u64(self.active.map_or(9, |a| a as u64), fnv_u64(u64::from(self.p.is_record_boundary()),
+                fnv_u64(cls(self.p.stream_buffer().len()), fnv_u64(cls(self.p.output_buffer().len()), fnv_u64(cls(self.p.input_buffer().len()),
+                fnv_u64(u64::from(dest_len.is_some()), fnv_u64(u64::from(res.is_err()), fnv_u64(u64::from(self.saw_end), 0x52))))))));
+            cx.state(h);
+        }
         match res {
             Ok(st) => {
                 if let Some(f) = &self.failed {
